@@ -5,6 +5,7 @@ import (
 	"go/token"
 	"os"
 	"path/filepath"
+	"regexp"
 	"sort"
 	"strconv"
 	"strings"
@@ -644,8 +645,149 @@ func (w *c17w) traceDecl(fd *ast.FuncDecl) []string {
 	return out
 }
 
+// ---- structured events ----
+//
+// An event string `g1 && g2 => what` read back into its parts, so that the obligations can be stated as relations
+// between events (same guards, before/after, count) with string equality only:
+//
+//	kind   "defer" | "store" | "return" | "call" | "other"
+//	recv   receiver/package part of the callee ("" for a plain function) — for a store: the left-hand side
+//	name   method/function name — for a store: ""
+//	args   canonical arguments — for a store: the right-hand side; for a return: the results
+type c17event struct {
+	guards           []string
+	kind, recv, name string
+	args             []string
+}
+
+// c17splitTop splits s at every occurrence of sep that is outside parentheses/brackets/braces and outside quotes.
+func c17splitTop(s, sep string) []string {
+	var out []string
+	depth, start := 0, 0
+	inq := false
+	for i := 0; i < len(s); i++ {
+		c := s[i]
+		switch {
+		case inq:
+			if c == '\\' {
+				i++
+			} else if c == '"' {
+				inq = false
+			}
+		case c == '"':
+			inq = true
+		case c == '(' || c == '[' || c == '{':
+			depth++
+		case c == ')' || c == ']' || c == '}':
+			depth--
+		case depth == 0 && strings.HasPrefix(s[i:], sep):
+			out = append(out, s[start:i])
+			start = i + len(sep)
+			i += len(sep) - 1
+		}
+	}
+	return append(out, s[start:])
+}
+
+func c17parseEvent(ev string) c17event {
+	e := c17event{guards: []string{}, args: []string{}}
+	what := ev
+	if parts := c17splitTop(ev, " => "); len(parts) >= 2 {
+		what = strings.Join(parts[1:], " => ")
+		for _, g := range c17splitTop(parts[0], " && ") {
+			if strings.HasPrefix(g, "(") && strings.HasSuffix(g, ")") && len(c17splitTop(g[1:len(g)-1], "\x00")) == 1 {
+				if inner := g[1 : len(g)-1]; len(c17splitTop(inner, " || ")) > 1 {
+					g = inner
+				}
+			}
+			e.guards = append(e.guards, g)
+		}
+	}
+	call := func(c string) bool {
+		if !strings.HasSuffix(c, ")") {
+			return false
+		}
+		// the opening parenthesis that matches the final one
+		depth, open := 0, -1
+		inq := false
+		for i := 0; i < len(c); i++ {
+			ch := c[i]
+			switch {
+			case inq:
+				if ch == '\\' {
+					i++
+				} else if ch == '"' {
+					inq = false
+				}
+			case ch == '"':
+				inq = true
+			case ch == '(' || ch == '[' || ch == '{':
+				if depth == 0 && ch == '(' {
+					open = i
+				}
+				depth++
+			case ch == ')' || ch == ']' || ch == '}':
+				depth--
+			}
+		}
+		if open <= 0 || depth != 0 {
+			return false
+		}
+		callee, argstr := c[:open], c[open+1:len(c)-1]
+		if ps := c17splitTop(callee, "."); len(ps) > 1 {
+			e.recv, e.name = strings.Join(ps[:len(ps)-1], "."), ps[len(ps)-1]
+		} else {
+			e.name = callee
+		}
+		if argstr != "" {
+			e.args = c17splitTop(argstr, ", ")
+		}
+		return true
+	}
+	switch {
+	case strings.HasPrefix(what, "defer "):
+		e.kind = "defer"
+		if !call(strings.TrimPrefix(what, "defer ")) {
+			e.name = strings.TrimPrefix(what, "defer ")
+		}
+	case strings.HasPrefix(what, "return"):
+		e.kind = "return"
+		if r := strings.TrimSpace(strings.TrimPrefix(what, "return")); r != "" {
+			e.args = c17splitTop(r, ", ")
+		}
+	default:
+		if ps := c17splitTop(what, " = "); len(ps) == 2 {
+			e.kind, e.recv, e.args = "store", ps[0], []string{ps[1]}
+		} else if call(what) {
+			e.kind = "call"
+		} else {
+			e.kind, e.name = "other", what
+		}
+	}
+	return e
+}
+
+func (x *X) c17defEvents(name string, evs []string) {
+	q := func(vs []string) string {
+		qs := make([]string, len(vs))
+		for i, v := range vs {
+			qs[i] = leanStr(v)
+		}
+		return "[" + strings.Join(qs, ", ") + "]"
+	}
+	var rows []string
+	for _, ev := range evs {
+		e := c17parseEvent(ev)
+		rows = append(rows, "("+q(e.guards)+", "+leanStr(e.kind)+", "+leanStr(e.recv)+", "+leanStr(e.name)+", "+q(e.args)+")")
+	}
+	x.defRaw("def " + name + " : List (List String × String × String × String × List String) := [" + strings.Join(rows, ",\n  ") + "]")
+}
+
+var c17handlerTrace []string
+
 func init() {
 	register("C17", func(x *X) error {
+		c17handlerTrace = nil
 		x.UseNormalizedAST()
 		const dir = "proxy/gzip"
 		w := &c17w{x: x, dir: dir}
@@ -672,6 +814,8 @@ func init() {
 				out := []string{}
 				w.block(lit.Body.List, nil, inner, &out, true)
 				x.defStrList("handlerTrace", out)
+				x.c17defEvents("handlerEvents", out)
+				c17handlerTrace = out
 			}
 		}
 		entries := map[string][]string{}
@@ -679,6 +823,7 @@ func init() {
 			if fd := x.funcDecl(dir, "GzipResponseWriter", m); fd != nil {
 				entries[m] = w.traceDecl(fd)
 				x.defStrList(strings.ToLower(m[:1])+m[1:]+"Trace", entries[m])
+				x.c17defEvents(strings.ToLower(m[:1])+m[1:]+"Events", entries[m])
 			}
 		}
 
@@ -861,6 +1006,252 @@ func init() {
 			})
 		}
 		x.defStrList("proxyWrap", wraps)
+
+		// ---- what no stream can establish by running the code ----
+
+		// package state: the types of ALL package-level variables, every store to one of them from a function body,
+		// and every method called on one (the responses of one process are independent of each other only if the
+		// pool is the only thing they share)
+		pkgVarNames := map[string]bool{}
+		var pkgVarTypes []string
+		for _, f := range x.files(dir) {
+			for _, d := range f.Decls {
+				gd, ok := d.(*ast.GenDecl)
+				if !ok || gd.Tok != token.VAR {
+					continue
+				}
+				for _, sp := range gd.Specs {
+					vs, ok := sp.(*ast.ValueSpec)
+					if !ok {
+						continue
+					}
+					for i, nm := range vs.Names {
+						if nm.Name == "_" {
+							continue
+						}
+						pkgVarNames[nm.Name] = true
+						t := "?"
+						switch {
+						case vs.Type != nil:
+							t = x.src(vs.Type)
+						case i < len(vs.Values):
+							switch v := vs.Values[i].(type) {
+							case *ast.CompositeLit:
+								if v.Type != nil {
+									t = x.src(v.Type)
+								}
+							case *ast.UnaryExpr:
+								if cl, ok := v.X.(*ast.CompositeLit); ok && cl.Type != nil {
+									t = "&" + x.src(cl.Type)
+								}
+							case *ast.CallExpr:
+								t = "call " + x.src(v.Fun)
+							case *ast.BasicLit:
+								t = strings.ToLower(v.Kind.String())
+							}
+						}
+						pkgVarTypes = append(pkgVarTypes, t)
+					}
+				}
+			}
+		}
+		x.defSortedStrList("pkgVarTypes", pkgVarTypes)
+		rootIdent := func(e ast.Expr) string {
+			for {
+				switch v := e.(type) {
+				case *ast.Ident:
+					return v.Name
+				case *ast.SelectorExpr:
+					e = v.X
+				case *ast.IndexExpr:
+					e = v.X
+				case *ast.StarExpr:
+					e = v.X
+				case *ast.ParenExpr:
+					e = v.X
+				default:
+					return ""
+				}
+			}
+		}
+		var pkgStores, pkgCalls []string
+		for _, f := range x.files(dir) {
+			for _, d := range f.Decls {
+				fd, ok := d.(*ast.FuncDecl)
+				if !ok || fd.Body == nil {
+					continue
+				}
+				// names shadowed by parameters/locals are not tracked: the package has no such shadowing today and a
+				// shadowed name only makes this list longer (an alarm), never shorter
+				ast.Inspect(fd.Body, func(n ast.Node) bool {
+					switch v := n.(type) {
+					case *ast.AssignStmt:
+						if v.Tok == token.DEFINE {
+							return true
+						}
+						for _, l := range v.Lhs {
+							if r := rootIdent(l); pkgVarNames[r] {
+								pkgStores = append(pkgStores, fd.Name.Name)
+							}
+						}
+					case *ast.IncDecStmt:
+						if r := rootIdent(v.X); pkgVarNames[r] {
+							pkgStores = append(pkgStores, fd.Name.Name)
+						}
+					case *ast.UnaryExpr:
+						if v.Op == token.AND { // address taken: could be stored through
+							if r := rootIdent(v.X); pkgVarNames[r] {
+								pkgStores = append(pkgStores, fd.Name.Name+" (address)")
+							}
+						}
+					case *ast.CallExpr:
+						if se, ok := v.Fun.(*ast.SelectorExpr); ok {
+							if id, ok := se.X.(*ast.Ident); ok && pkgVarNames[id.Name] {
+								role := w.pkgVarRole[id.Name]
+								if role == "" || !strings.HasPrefix(role, "V[") {
+									role = "V"
+								}
+								pkgCalls = append(pkgCalls, role+"."+se.Sel.Name)
+							}
+						}
+					}
+					return true
+				})
+			}
+		}
+		sort.Strings(pkgStores)
+		x.defStrList("pkgVarStores", pkgStores)
+		x.defSortedStrList("pkgVarCalls", pkgCalls)
+
+		// the handler closure: stores to variables of the enclosing NewGzipHandler (state shared by all requests of
+		// the handler value), and every way the request parameter is used (through inlined helpers): selector chains
+		// up to a call; a bare `c1` = handed on
+		var outerStores []string
+		if fd := x.funcDecl(dir, "", "NewGzipHandler"); fd != nil {
+			outer := map[string]bool{}
+			if fd.Type.Params != nil {
+				for _, p := range fd.Type.Params.List {
+					for _, n := range p.Names {
+						outer[n.Name] = true
+					}
+				}
+			}
+			var lit *ast.FuncLit
+			ast.Inspect(fd.Body, func(n ast.Node) bool {
+				switch v := n.(type) {
+				case *ast.FuncLit:
+					if lit == nil {
+						lit = v
+					}
+					return false
+				case *ast.AssignStmt:
+					if v.Tok == token.DEFINE {
+						for _, l := range v.Lhs {
+							if id, ok := l.(*ast.Ident); ok {
+								outer[id.Name] = true
+							}
+						}
+					}
+				case *ast.ValueSpec:
+					for _, id := range v.Names {
+						outer[id.Name] = true
+					}
+				}
+				return true
+			})
+			if lit != nil {
+				ast.Inspect(lit.Body, func(n ast.Node) bool {
+					switch v := n.(type) {
+					case *ast.AssignStmt:
+						if v.Tok != token.DEFINE {
+							for _, l := range v.Lhs {
+								if r := rootIdent(l); outer[r] {
+									outerStores = append(outerStores, x.src(l))
+								}
+							}
+						}
+					case *ast.IncDecStmt:
+						if r := rootIdent(v.X); outer[r] {
+							outerStores = append(outerStores, x.src(v.X))
+						}
+					}
+					return true
+				})
+			}
+		}
+		x.defStrList("handlerSharedStores", outerStores)
+		reqUse := regexp.MustCompile(`(\*?)\bc1((?:\.[A-Za-z_][A-Za-z0-9_]*)*)(\(?)(\s=[^=])?`)
+		uses := map[string]bool{}
+		var reqStores []string
+		var handlerTr []string
+		scan := func(ev string) {
+			for _, m := range reqUse.FindAllStringSubmatch(ev, -1) {
+				u := m[1] + "c1" + m[2] + m[3]
+				uses[u] = true
+				if m[4] != "" {
+					reqStores = append(reqStores, u)
+				}
+			}
+		}
+		handlerTr = c17handlerTrace
+		for _, ev := range handlerTr {
+			scan(ev)
+		}
+		for _, d := range w.defs {
+			scan(d)
+		}
+		var us []string
+		for u := range uses {
+			us = append(us, u)
+		}
+		x.defSortedStrList("requestUses", us)
+		x.defStrList("requestStores", reqStores)
+
+		// main.go: the proxy is given the loaded proxy configuration and fabio's own transport (no harness runs main)
+		var mainCfg, mainTr []string
+		for _, f := range x.files("") {
+			for _, d := range f.Decls {
+				fd, ok := d.(*ast.FuncDecl)
+				if !ok || fd.Body == nil {
+					continue
+				}
+				ptype := map[string]string{}
+				if fd.Type.Params != nil {
+					for _, p := range fd.Type.Params.List {
+						for _, n := range p.Names {
+							ptype[n.Name] = x.src(p.Type)
+						}
+					}
+				}
+				ast.Inspect(fd.Body, func(n ast.Node) bool {
+					cl, ok := n.(*ast.CompositeLit)
+					if !ok || cl.Type == nil || x.src(cl.Type) != "proxy.HTTPProxy" {
+						return true
+					}
+					for _, el := range cl.Elts {
+						kv, ok := el.(*ast.KeyValueExpr)
+						if !ok {
+							continue
+						}
+						switch x.src(kv.Key) {
+						case "Config":
+							v := x.src(kv.Value)
+							if se, ok := kv.Value.(*ast.SelectorExpr); ok {
+								if id, ok := se.X.(*ast.Ident); ok && ptype[id.Name] != "" {
+									v = "param[" + ptype[id.Name] + "]." + se.Sel.Name
+								}
+							}
+							mainCfg = append(mainCfg, v)
+						case "Transport":
+							mainTr = append(mainTr, x.src(kv.Value))
+						}
+					}
+					return true
+				})
+			}
+		}
+		x.defStrList("mainProxyConfig", mainCfg)
+		x.defStrList("mainProxyTransport", mainTr)
 
 		// the documented expression (the harness uses it as the main pattern)
 		doc := ""
